@@ -297,9 +297,12 @@ func (c *Case) Heal(s *Sim, byzQuiet bool) {
 	s.HealedAt = s.Now
 	// a replica that already committed serves its certificate to the ones that fell behind (the node's block-sync path,
 	// which is outside the BFT rounds): whoever committed re-gossips once the network works again
+	// (every height it has, oldest first: a replica that missed height h cannot use the certificate of h+1)
 	for _, i := range s.Honest() {
-		if r := s.Replicas[i]; len(r.Chain) > 0 {
-			s.gossipBlock(i, r.Chain[len(r.Chain)-1])
+		r := s.Replicas[i]
+		for k := range r.Chain {
+			i, qc := i, r.Chain[k]
+			s.At(int64(k)*10, func() { s.gossipBlock(i, qc) })
 		}
 	}
 }
